@@ -25,6 +25,7 @@ Definition eff_eqb (a b : eff) : bool :=
   match a, b with
   | EPut k v, EPut k' v' => mkey_eqb k k' && (v =? v')
   | EFin n, EFin n' => (n =? n')
+  | EPub n, EPub n' => (n =? n')
   | _, _ => false
   end.
 
@@ -41,7 +42,8 @@ Fixpoint list_eqb {A} (e : A -> A -> bool) (a b : list A) : bool :=
 Record icase := {
   ic_ops : list (list item);
   ic_obs : list (N * N * bool);     (* after each operation: reported height, store height, IsDAIncluded(reported+1) *)
-  ic_trace : list eff;              (* the recorded effects, oldest first *)
+  ic_trace : list eff;              (* the recorded effects (datastore Puts, SetFinal calls), oldest first *)
+  ic_death : list N;                (* per crash / fault item, in order: GetDAIncludedHeight() of the dying process *)
   ic_meta : list (mkey * N);        (* final dump of "/m/d" and "/m/rhb/*" *)
   ic_hm : list (N * option N);      (* header-hash id, headerCache.GetDAIncludedHeight *)
   ic_dm : list (N * option N);      (* commitment id, dataCache.GetDAIncludedHeight *)
@@ -61,20 +63,30 @@ Fixpoint run_ops (s : node) (ops : list (list item)) : node * list (N * N * bool
               let '(s'', os) := run_ops s' r in (s'', observe s' :: os)
   end.
 
+(* the in-memory publication is not recordable from outside: it is compared through [ic_death] and [ic_obs] *)
+Definition recordable (e : eff) : bool := match e with EPub _ => false | _ => true end.
+
+Fixpoint deaths (s : node) (l : list item) : list N :=
+  match l with
+  | [] => []
+  | i :: r => match i with ICrash k | IFault k => [di (dying s k)] | _ => [] end ++ deaths (step s i) r
+  end.
+
 Definition meta_agrees (m : metaT) (dump : list (mkey * N)) : bool :=
   forallb (fun e => optN_eqb (meta_get m (fst e)) (Some (snd e))) dump
   && forallb (fun e => existsb (fun d => mkey_eqb (fst e) (fst d)) dump) m.
 
 (* 1 = observations differ, 2 = effect log differs, 3 = metadata image differs, 4 = cache marks differ,
-   5 = a key builder differs *)
+   5 = a key builder differs, 6 = the height visible at an instant of death / fault differs *)
 Definition check_case (c : icase) : list N :=
   let '(s, os) := run_ops init (ic_ops c) in
   (if list_eqb obs_eqb os (ic_obs c) then [] else [1]) ++
-  (if list_eqb eff_eqb (rev (tr s)) (ic_trace c) then [] else [2]) ++
+  (if list_eqb eff_eqb (filter recordable (rev (tr s))) (ic_trace c) then [] else [2]) ++
   (if meta_agrees (meta s) (ic_meta c) then [] else [3]) ++
   (if forallb (fun e => optN_eqb (mget (hm s) (fst e)) (snd e)) (ic_hm c)
       && forallb (fun e => optN_eqb (mget (dm s) (fst e)) (snd e)) (ic_dm c) then [] else [4]) ++
-  (if forallb (fun e => String.eqb (key_str (fst e)) (snd e)) (ic_keys c) then [] else [5]).
+  (if forallb (fun e => String.eqb (key_str (fst e)) (snd e)) (ic_keys c) then [] else [5]) ++
+  (if list_eqb N.eqb (deaths init (concat (ic_ops c))) (ic_death c) then [] else [6]).
 
 Fixpoint mismatches_from (i : N) (cs : list icase) : list (N * list N) :=
   match cs with
